@@ -18,7 +18,7 @@ ID = 'C09'
 LEVEL = 'exploration'
 RULE = (
     'every assignment of counts {0,1,2,7} to the voxels of grids (2,2,1), (1,3,2), (2,2,2) with at least one '
-    'non-zero voxel (255 + 4095 + 65535) x temperatures {1,77,300,1000} K; graph node sets for thresholds '
+    'non-zero voxel (255 + 4095 + 65535), also scaled by 1/8 and 1/3 (float densities below 1), x temperatures {1,77,300,1000} K queried one after the other on the SAME Volume object (first temperature repeated at the end); graph node sets for thresholds '
     '{default 1e20, 1e7}; evaluation = one (density, temperature); distinct = distinct (density, T) free-energy arrays'
 )
 LEVEL_TEXT = (
@@ -34,6 +34,7 @@ KB_EV = 8.617333262e-5
 COUNTS = [0, 1, 2, 7]
 SHAPES = [(2, 2, 1), (1, 3, 2), (2, 2, 2)]
 TEMPS = [1.0, 77.0, 300.0, 1000.0]
+SCALES = [1, 0.125, 1.0 / 3.0]
 
 
 def shards(tier, seed):
@@ -61,12 +62,13 @@ def lattice():
     return _LAT
 
 
-def evaluate(data, T, graph=True):
+def evaluate(data, T, graph=True, vol=None):
     from gemdat.volume import Volume
 
     viols = []
-    data = np.asarray(data, dtype=int)
-    vol = Volume(data=data, lattice=lattice())
+    data = np.asarray(data)
+    if vol is None:
+        vol = Volume(data=data, lattice=lattice())
     try:
         fe = vol.get_free_energy(temperature=T)
     except Exception as e:  # noqa: BLE001
@@ -77,7 +79,7 @@ def evaluate(data, T, graph=True):
     if not np.all(np.isfinite(F)):
         viols.append(('free-energy-not-finite', f'F={F.tolist()} data={data.tolist()}'))
         return viols, ('nonfinite',)
-    tot = int(data.sum())
+    tot = float(data.sum())
     kT = KB_EV * T
     vis = data > 0
     psum = 0.0
@@ -126,17 +128,33 @@ def run_shard(shard) -> Result:
         vals = pre + list(rest)
         if not any(vals):
             continue
-        data = np.array(vals).reshape(shape)
-        for T in shard['temps']:
-            viols, key = evaluate(data, T, graph=shard['graph'] and T in (1.0, 300.0))
-            res.evals += 1
-            res.outcome(hash(key))
-            for kind, detail in viols:
-                res.violation(kind, {'data': data.tolist(), 'T': T}, detail)
+        base = np.array(vals).reshape(shape)
+        # scale: the same density as integer counts, as counts per frame (floats < 1) and as thirds
+        for si, scale in enumerate(SCALES if (n <= 6 or sum(vals) % 3 == 0) else SCALES[:1]):
+            data = base if scale == 1 else base * scale
+            from gemdat.volume import Volume
+
+            vol = Volume(data=data.copy(), lattice=lattice())  # ONE object queried repeatedly (history)
+            temps = list(shard['temps']) + [shard['temps'][0]]
+            for ti, T in enumerate(temps):
+                viols, key = evaluate(data, T, graph=shard['graph'] and T in (1.0, 300.0) and si == 0, vol=vol)
+                res.evals += 1
+                res.outcome(hash(key))
+                for kind, detail in viols:
+                    tag = '' if ti == 0 else '-on-repeated-query'
+                    res.violation(kind + tag, {'data': data.tolist(), 'T': T, 'temps_before': temps[:ti]}, detail)
+            if not np.array_equal(np.asarray(vol.data), data):
+                res.violation('free-energy-query-modifies-the-density', {'data': data.tolist(), 'T': temps[0], 'temps_before': temps}, '')
     res.sample({'density': data.tolist(), 'temperature': T})
     return res
 
 
 def replay(case):
-    viols, _ = evaluate(np.array(case['data']), case['T'])
+    from gemdat.volume import Volume
+
+    data = np.array(case['data'])
+    vol = Volume(data=data.copy(), lattice=lattice())
+    for T in case.get('temps_before', []):
+        evaluate(data, T, graph=False, vol=vol)
+    viols, _ = evaluate(data, case['T'], vol=vol)
     return [{'kind': k, 'detail': d} for k, d in viols]
